@@ -29,8 +29,8 @@ ASSUMPTIONS = [
 ]
 BOUNDS = {
     "quick": "shape/: vectors of 2 slots (kind in {-D,-I,-isystem,-include,unknown flag,file} x attached/detached, concrete "
-             "representative values incl. '=', spaces, quotes, inner dashes) + one of 46 catalogue flags at every position; "
-             "value/: one detached option value as an arbitrary string |v| <= 3 next to each of 15 hazardous flags",
+             "representative values incl. '=', spaces, quotes, inner dashes) + one of 55 catalogue flags at every position; "
+             "value/: one detached option value as an arbitrary string |v| <= 3 next to each of 9 hazardous flags",
     "thorough": "shape/: 3 slots; value/: all 46 flags, |v| <= 4",
 }
 EXPLANATION = (
@@ -50,6 +50,8 @@ CATALOGUE = [
     ["-cxx-isystem", "d"], ["-coverage"], ["-fopenmp"], ["-Wl,-rpath,/x"], ["-pipe"], ["-m64"], ["-S"], ["-E"], ["-v"],
     ["-nostdinc"], ["-iquote", "q"], ["-idirafter", "d"], ["-L/x"], ["-lm"], ["-shared"], ["-fno-exceptions"], ["-pedantic"],
     ["-ffast-math"],
+    # unmodelled options whose value is ATTACHED (one argument): nothing after them may be swallowed
+    ["-xc++"], ["-MFx.d"], ["-MTx.o"], ["-MQt"], ["-xHost"], ["-G"], ["-Wp,-MD,x.d"], ["-Wno-unused"], ["-std=gnu11"],
 ]
 ATTACHED = {0: ["A=1", "X=a=b-c", 'S="q r"'], 1: ["/p/q-r", "inc dir", "../i"], 2: ["/opt/my-lib/sys", "s y", "./s"],
             3: ["cfg-host.h", "pre fix.h", "../g.h"]}
@@ -57,6 +59,8 @@ DETACHED = {0: ["B", "Y=c=d", "T='u v'"], 1: ["/a/b", "my inc", "i-n-c"], 2: ["/
             3: ["g.h", "a b.h", "pre-fix.h"]}
 FLAG = {0: "-D", 1: "-I", 2: "-isystem", 3: "-include"}
 COMPILER = "vp-unknown-cc"
+KNOWN_CC = {"gcc": ([], ["default"]), "nvcc": (["__NVCC__", "__CUDACC__"], ["default", "sm_70"]),
+            "icx": ([], ["default", "sycl-spir64"])}
 
 
 def prepare(params):
@@ -114,7 +118,10 @@ def h_args(k1: int, a1: bool, k2: int, a2: bool, k3: int, a3: bool, v1: str, v2:
         if kind == 5:
             argv.append("src%d.c" % i)
         elif kind == 4:
-            argv += CATALOGUE[(P["flag"] + 7 * (i + 1)) % len(CATALOGUE)]
+            j = (P["flag"] + 7 * (i + 1)) % len(CATALOGUE)
+            while "-fopenmp" in CATALOGUE[j] and P.get("compiler", COMPILER) in KNOWN_CC:
+                j = (j + 1) % len(CATALOGUE)  # -fopenmp (also as -Xcompiler -fopenmp) is modelled by these compilers: C12's subject
+            argv += CATALOGUE[j]
         else:
             if at[i]:
                 val = ATTACHED[kind][(i + P["flag"]) % 3]
@@ -131,6 +138,22 @@ def h_args(k1: int, a1: bool, k2: int, a2: bool, k3: int, a3: bool, v1: str, v2:
     ok, cfgs, rec = _run_parse(argv, untraced=True)
     if not ok:
         return False
+    cc = P.get("compiler", COMPILER)
+    if cc in KNOWN_CC:
+        # a modelled compiler: the default pass carries the command line's values (+ the compiler's implicit defines), the
+        # compiler's default device passes must still be there (an unmodelled flag must not be read as an abbreviation
+        # of one of the compiler's own options)
+        imp, passes = KNOWN_CC[cc]
+        byname = {c.pass_name: c for c in cfgs}
+        ok = set(byname) == set(passes) and len(cfgs) == len(passes)
+        if ok:
+            d = byname["default"]
+            ok = d.defines == exp[0] + imp and d.include_paths == exp[1] + exp[2] and d.include_files == exp[3]
+        if P.get("_replay"):
+            LAST.update(argv=argv, compiler=cc, expected=dict(passes=passes, defines=exp[0] + imp, include_paths=exp[1] + exp[2],
+                                                             include_files=exp[3]),
+                        observed=[(c.pass_name, c.defines, c.include_paths, c.include_files) for c in cfgs], warnings=rec.warnings())
+        return ok
     # -I directories in command-line order, then -isystem directories in command-line order (the compiler's search order)
     ok = len(cfgs) == 1 and cfgs[0].defines == exp[0] and cfgs[0].include_paths == exp[1] + exp[2] and cfgs[0].include_files == exp[3]
     if P.get("_replay"):
@@ -271,7 +294,7 @@ _ABORT = {"C11-g-c-prefix-abort": ["-g3", "-ggdb", "-gdwarf-4", "-gsplit-dwarf",
 
 
 HAZARD = ["-g3", "-ggdb", "-ccbin", "-coverage", "-O", "-MF", "-x", "-o", "-c", "@rsp", "-Xcompiler", "-iquote", "-cxx-isystem",
-          "-Wl,-rpath,/x", "--sysroot=/x"]
+          "-Wl,-rpath,/x", "--sysroot=/x", "-g", "-G", "-xc++", "-MFx.d", "-MTx.o", "-MQt", "-xHost", "-Wp,-MD,x.d"]
 
 
 def obligations(tier, known):
@@ -286,11 +309,16 @@ def obligations(tier, known):
         for fx in fixes:
             obs.append(Ob(id="shape/%s/%s" % (CATALOGUE[f][0], "all" if fx is None else "k%d" % fx), kind="ch", module=__name__,
                           func="h_args", params=dict(slots=slots, flag=f, fix=fx), timeout=300, group="shape", expect=expect))
-    for fx in range(4):
-        obs.append(Ob(id="shape-gcc/-Wall/k%d" % fx, kind="ch", module=__name__, func="h_args",
-                      params=dict(slots=slots, flag=8, fix=fx, compiler="gcc"), timeout=300, group="shape"))
+    for cc in KNOWN_CC:
+        for f in range(len(CATALOGUE)):
+            if "-fopenmp" in CATALOGUE[f]:
+                continue  # modelled by these compilers (C12's subject)
+            if tier == "quick" and CATALOGUE[f][0] not in HAZARD:
+                continue
+            obs.append(Ob(id="shape-%s/%s" % (cc, CATALOGUE[f][0]), kind="ch", module=__name__, func="h_args",
+                          params=dict(slots=2, flag=f, fix=None, compiler=cc), timeout=300, group="shape"))
     for f in range(len(CATALOGUE)):
-        if CATALOGUE[f][0] not in HAZARD and tier == "quick":
+        if tier == "quick" and CATALOGUE[f][0] not in HAZARD[:9]:
             continue
         for kind in range(4):
             obs.append(Ob(id="value/%s/%s" % (CATALOGUE[f][0], FLAG[kind]), kind="ch", module=__name__, func="h_value",
@@ -306,7 +334,7 @@ def obligations(tier, known):
 
 
 CLAIM = ("For every assignment of slot kinds and forms within the bound, for ALL detached option values (symbolic strings) and each "
-         "of 46 unmodelled real compiler flags at every position, the real parse_args neither aborts nor loses/reorders/alters a "
+         "of 55 unmodelled real compiler flags at every position, the real parse_args neither aborts nor loses/reorders/alters a "
          "-D/-I/-isystem/-include - confirmed over all paths by CrossHair.")
 LEVEL_NOTE = ("Trusted: CrossHair/z3 (string theory for option values), stdlib argparse as executed. Bounded: 2/3 slots, one "
               "catalogue flag per vector, values <= 3 characters; response-file contents and -Wp,/-Xpreprocessor forwarding are outside.")
